@@ -118,7 +118,7 @@ func randomPoints(r, highRet *whispertool.ArchiveInfo, highPts []whispertool.Poi
 	var thisHighStartTime whispertool.Timestamp
 	if highPts != nil {
 		highStartTime := highPts[0].Time
-		if highStartTime < thisUntil {
+		if highStartTime <= thisUntil {
 			thisHighStartTime = highStartTime.Truncate(step)
 		}
 	}
